@@ -16,3 +16,4 @@ void h_decr_ref_count(void) { int *st; g_debug = 0; g_errors = 0;
   int r = k_decr_ref_count(1, st);
   if (g_ndisable == 1) __CPROVER_assert(0, "canary: auto-disable reachable");
   if (r != 0) __CPROVER_assert(0, "canary: underflow error reachable"); }
+void h_toplevel_survives(void) { int *st; g_debug = 0; g_errors = 0; int r = k_toplevel_survives(1, st); if (r == 0) __CPROVER_assert(0, "canary: dependent came and went"); }
